@@ -301,6 +301,16 @@ def event (P : Params) (r : Replay) (ev : Ev) : Except String Replay := do
   | "uts" =>
       if r.s.uts a != b then throw s!"validation timestamp differs: impl {b} model {r.s.uts a}"
       pure r
+  | "hist_invalidate" =>
+      -- failed validation of the LAST transaction: `rewind_validation_to(n)` returns at once and the
+      -- locks are dropped before the next schedule point of this worker
+      match r.s.phase a with
+      | .valMark [] =>
+          if a + 1 ≥ P.n then
+            let r ← stepOrErr P r (.endValMark a) "endValMark"
+            pure (skipTail P r a)
+          else pure r
+      | _ => pure r
   | "val_done" =>
       -- failed validation whose rewind target is beyond the block: no rewind events follow
       match r.s.phase a with
